@@ -319,6 +319,48 @@ theorem cached_identity_stable (s : TState κ) (k : κ) (t : Tmpl κ)
   unfold cachedTemplate
   simp [cget, hl, lookup]
 
+/-- Identity over histories: with a template cache of size `n`, a source compiled (or found) by
+`cached_template` and requested again after fewer than `n` other `cached_template` calls — for any
+sources, hits or misses, from any starting state — yields the *identical* object: the first clause
+of "the identical Template object for a repeated key for as long as it is cached", with the
+guarantee of how long that is. -/
+theorem cached_identity_while_recent (n : Nat) (s : TState κ) (hc : s.cache.cap = some n)
+    (k : κ) (ks : List κ) (hlen : ks.length < n) :
+    (cachedTemplate (tRun (cachedTemplate s k).1 ks).1 k).2 = (cachedTemplate s k).2 := by
+  have h0 : TNear k (cachedTemplate s k).2 0 (cachedTemplate s k).1.cache ∧
+      (cachedTemplate s k).1.cache.cap = some n := by
+    unfold cachedTemplate
+    cases hl : lookup k s.cache.items with
+    | some t' =>
+      simp only [cget, hl]
+      exact ⟨⟨by simp [lookup], by simp [keys, posOf]⟩, hc⟩
+    | none =>
+      simp only [cget, hl]
+      have hd : isDisabled s.cache = false := by
+        unfold isDisabled; rw [hc]; simp; omega
+      have hcap : (cset s.cache k { ident := s.next, key := k }).cap = some n := by
+        have := step_cap s.cache (Op.set k { ident := s.next, key := k })
+        simpa [step, hc] using this
+      have hitems : ∃ rest, (cset s.cache k ({ ident := s.next, key := k } : Tmpl κ)).items =
+          (k, { ident := s.next, key := k }) :: rest := by
+        unfold cset; rw [hd]
+        simp only [Bool.false_eq_true, if_false]
+        split
+        · exact ⟨_, rfl⟩
+        · split <;> exact ⟨_, rfl⟩
+      obtain ⟨rest, hr⟩ := hitems
+      exact ⟨⟨by simp [hr, lookup], by simp [hr, keys, posOf]⟩, hcap⟩
+  have h1 := tnear_run n k (cachedTemplate s k).2 ks (cachedTemplate s k).1 0 h0.2 h0.1 (by omega)
+  exact (cached_identity_stable _ k _ h1.1.1).1
+
+/-- Non-vacuity / sharpness: size 2 — one other source in between keeps the object, two evict it
+(a new object with a new identity is compiled). -/
+example :
+    (tRun ({ cache := empty (some 2), next := 0 } : TState Nat) [5, 6, 5]).2.map Tmpl.ident = [0, 1, 0] ∧
+    (tRun ({ cache := empty (some 2), next := 0 } : TState Nat) [5, 6, 7, 5]).2.map Tmpl.ident
+      = [0, 1, 2, 3] := by
+  decide
+
 /-- A miss compiles a fresh object, distinct from every cached one. -/
 theorem cached_miss_is_fresh (s : TState κ) (k : κ) (hi : TInv s)
     (hl : lookup k s.cache.items = none) :
